@@ -3,16 +3,17 @@ package main
 // Corpus runs: every .go file under the given roots through the C14 / C37 comparator.  The corpus
 // is an ADDITION to the spec-driven enumeration (counted separately), not a replacement.
 //
-// Domain of C14 for corpus files: go/parser accepts AND the file's package type-checks.  A corpus
-// file is type-checked together with the other files of its directory that share its package
-// clause, against the standard library only (source importer).  Directories whose packages need
-// anything else (module dependencies) or do not type-check are outside the domain and skipped
-// (counted), except when the caller vouches for them (-trust: the files belong to packages that
-// `go vet` of the tree under test accepts -- established by the engine, see props/c14.py).
+// Domain of C14 for corpus files: go/parser accepts AND go/types accepts.  Agreement of the two
+// parsers needs no domain check (nothing is alleged), so go/types is run LAZILY: only when the XGo
+// parser rejects a file or builds a different tree is the file's package (the files go/build selects
+// in its directory, imports resolved from source: standard library and module cache) type-checked;
+// if that fails, or the file is excluded by build constraints, the file is outside the domain and
+// skipped (counted), never judged.
 
 import (
 	"fmt"
 	goast "go/ast"
+	"go/build"
 	goparser "go/parser"
 	gotoken "go/token"
 	"go/types"
@@ -23,23 +24,15 @@ import (
 	"path/filepath"
 	"sort"
 	"strings"
+	"sync"
 
 	"verifharness/hlib"
 )
 
-type corpusFile struct {
-	path    string
-	trusted bool
-}
-
-func listGoFiles(roots []string) (files []corpusFile) {
+func listGoFiles(roots []string) (files []string) {
 	for _, root := range roots {
-		trusted := false
-		if strings.HasPrefix(root, "trust:") {
-			trusted, root = true, root[len("trust:"):]
-		}
 		if st, err := os.Stat(root); err == nil && !st.IsDir() {
-			files = append(files, corpusFile{root, trusted})
+			files = append(files, root)
 			continue
 		}
 		filepath.WalkDir(root, func(path string, d fs.DirEntry, err error) error {
@@ -53,77 +46,124 @@ func listGoFiles(roots []string) (files []corpusFile) {
 				return nil
 			}
 			if strings.HasSuffix(path, ".go") {
-				files = append(files, corpusFile{path, trusted})
+				files = append(files, path)
 			}
 			return nil
 		})
 	}
-	sort.Slice(files, func(i, j int) bool { return files[i].path < files[j].path })
+	sort.Strings(files)
 	return
 }
 
-// dirTypeChecks type-checks the files of one directory grouped by package name; returns the set
-// of files that belong to a package that type-checks.
-func dirTypeChecks(dir string, names []string) map[string]bool {
-	ok := map[string]bool{}
-	fset := gotoken.NewFileSet()
-	byPkg := map[string][]*goast.File{}
-	fileOf := map[*goast.File]string{}
-	for _, n := range names {
-		f, err := goparser.ParseFile(fset, n, nil, goparser.ParseComments|goparser.SkipObjectResolution)
-		if err != nil {
-			continue
+var (
+	pkgOKMu sync.Mutex
+	pkgOK   = map[string]error{}
+)
+
+// fileTypeChecks establishes that a corpus file is in the domain: its package type-checks.
+func fileTypeChecks(path string) error {
+	dir, base := filepath.Dir(path), filepath.Base(path)
+	bp, err := build.Default.ImportDir(dir, 0)
+	if err != nil {
+		if _, multi := err.(*build.MultiplePackageError); !multi && bp == nil {
+			return err
 		}
-		byPkg[f.Name.Name] = append(byPkg[f.Name.Name], f)
-		fileOf[f] = n
 	}
-	for name, fs := range byPkg {
-		bad := false
-		conf := types.Config{Importer: stdImporter(), FakeImportC: true, Error: func(error) { bad = true }}
+	var names []string
+	key := dir
+	switch {
+	case contains(bp.GoFiles, base) || contains(bp.CgoFiles, base):
+		names = append(append(names, bp.GoFiles...), bp.CgoFiles...)
+	case contains(bp.TestGoFiles, base):
+		names = append(append(append(names, bp.GoFiles...), bp.CgoFiles...), bp.TestGoFiles...)
+		key += "#test"
+	case contains(bp.XTestGoFiles, base):
+		names = bp.XTestGoFiles
+		key += "#xtest"
+	default:
+		return fmt.Errorf("%s is not selected by go/build in %s (build constraints, ignored or invalid file)", base, dir)
+	}
+	pkgOKMu.Lock()
+	defer pkgOKMu.Unlock()
+	if e, done := pkgOK[key]; done {
+		return e
+	}
+	fset := gotoken.NewFileSet()
+	var files []*goast.File
+	var first error
+	for _, n := range names {
+		f, err := goparser.ParseFile(fset, filepath.Join(dir, n), nil, goparser.SkipObjectResolution)
+		if err != nil {
+			first = err
+			break
+		}
+		files = append(files, f)
+	}
+	if first == nil && len(files) > 0 {
+		conf := types.Config{Importer: stdImporter(), FakeImportC: true, Error: func(e error) {
+			if first == nil {
+				first = e
+			}
+		}}
 		func() {
 			defer func() {
-				if recover() != nil {
-					bad = true
+				if e := recover(); e != nil && first == nil {
+					first = fmt.Errorf("go/types panic: %v", e)
 				}
 			}()
-			conf.Check(name, fset, fs, nil)
+			conf.Check(files[0].Name.Name, fset, files, nil)
 		}()
-		if !bad {
-			for _, f := range fs {
-				ok[fileOf[f]] = true
+	}
+	pkgOK[key] = first
+	return first
+}
+
+// stdOnlyPackage: every import of every Go file of the directory is a standard-library path.
+func stdOnlyPackage(path string) bool {
+	bp, _ := build.Default.ImportDir(filepath.Dir(path), 0)
+	if bp == nil {
+		return false
+	}
+	for _, l := range [][]string{bp.Imports, bp.TestImports, bp.XTestImports} {
+		for _, imp := range l {
+			first := imp
+			if k := strings.IndexByte(imp, '/'); k >= 0 {
+				first = imp[:k]
+			}
+			if strings.Contains(first, ".") {
+				return false
 			}
 		}
 	}
-	return ok
+	return true
+}
+
+func contains(l []string, s string) bool {
+	for _, x := range l {
+		if x == s {
+			return true
+		}
+	}
+	return false
 }
 
 func runCorpus(roots []string, which string) {
 	log.SetOutput(io.Discard)
 	files := listGoFiles(roots)
-	byDir := map[string][]string{}
-	for _, f := range files {
-		byDir[filepath.Dir(f.path)] = append(byDir[filepath.Dir(f.path)], f.path)
-	}
-	typed := map[string]bool{}
-	if which == "c14" {
-		var dirs []string
-		for d := range byDir {
-			dirs = append(dirs, d)
-		}
-		sort.Strings(dirs)
-		oks := make([]map[string]bool, len(dirs))
-		hlib.Parallel(len(dirs), 8, func(i int) { oks[i] = dirTypeChecks(dirs[i], byDir[dirs[i]]) })
-		for _, m := range oks {
-			for k := range m {
-				typed[k] = true
-			}
+	// go/build resolves module imports by running `go list` in the process's working directory:
+	// stand inside the module whose files are judged (nothing is written there).
+	for _, r := range roots {
+		if _, err := os.Stat(filepath.Join(r, "go.mod")); err == nil {
+			os.Chdir(r)
+			break
 		}
 	}
 	results := make([]hlib.Result, len(files))
+	extras := make([][][2]string, len(files))
 	hlib.Parallel(len(files), 8, func(i int) {
-		cf := files[i]
-		res := hlib.Result{Idx: i, V: "ok", Input: map[string]any{"file": cf.path}}
-		src, err := os.ReadFile(cf.path)
+		path := files[i]
+		res := hlib.Result{Idx: i, V: "ok", Input: map[string]any{"file": path}}
+		src, err := os.ReadFile(path)
 		if err != nil {
 			res.V, res.Sig, res.Detail = "skip", "skip:read", err.Error()
 			results[i] = res
@@ -131,14 +171,13 @@ func runCorpus(roots []string, which string) {
 		}
 		switch which {
 		case "c14":
-			o := compareSrc(cf.path, src, false, false)
-			switch {
-			case o.V == "skip":
+			o := compareSrc(path, src, false, false)
+			switch o.V {
+			case "skip":
 				res.V, res.Sig, res.Detail = "skip", "skip:"+o.Why, o.Detail
-			case !typed[cf.path] && !cf.trusted:
-				res.V, res.Sig, res.Detail = "skip", "skip:go/types", "package does not type-check against the standard library alone"
-			case o.V == "viol":
-				res.V, res.Sig, res.Detail = "viol", o.Sig, cf.path+": "+o.Detail
+			case "viol":
+				// domain check deferred to the sequential second phase
+				res.V, res.Sig, res.Detail = "viol", o.Sig, path+": "+o.Detail
 			}
 			if o.GoTree != nil && res.V != "skip" {
 				set := map[string]bool{}
@@ -150,14 +189,17 @@ func runCorpus(roots []string, which string) {
 			}
 		case "c37":
 			fset := gotoken.NewFileSet()
-			gf, err := goparser.ParseFile(fset, cf.path, src, goparser.ParseComments|goparser.SkipObjectResolution)
+			gf, err := goparser.ParseFile(fset, path, src, goparser.ParseComments|goparser.SkipObjectResolution)
 			if err != nil {
 				res.V, res.Sig, res.Detail = "skip", "skip:go/parser", err.Error()
 				break
 			}
 			r := roundTrip(fset, gf)
 			if r.V == "viol" {
-				res.V, res.Sig, res.Detail = "viol", r.Sig, cf.path+": "+r.Detail
+				if len(r.More) > 1 {
+					extras[i] = r.More[1:]
+				}
+				res.V, res.Sig, res.Detail = "viol", r.Sig, path+": "+r.Detail
 			} else {
 				res.Detail = fmt.Sprintf("%d declaration headers unchanged", r.Decls)
 			}
@@ -165,7 +207,48 @@ func runCorpus(roots []string, which string) {
 		}
 		results[i] = res
 	})
-	for _, r := range results {
+	if which == "c14" {
+		// Second phase: a disagreement counts only if the file is in the domain.  go/types over a
+		// whole package (dependencies from source) is expensive, so per signature at most `demos`
+		// files are domain-checked (1 in the quick tier, 3 in the thorough tier); further files
+		// with an already demonstrated signature are not judged (skip), which loses nothing: the
+		// engine reports one violation per signature.
+		demos := 1
+		if hlib.Tier() == "thorough" {
+			demos = 3
+		}
+		shown, tried := map[string]int{}, map[string]int{}
+		for i := range results {
+			r := &results[i]
+			if r.V != "viol" {
+				continue
+			}
+			sig := r.Sig
+			switch {
+			case shown[sig] >= demos:
+				r.V, r.Sig, r.Detail = "skip", "skip:not-judged", "parsers disagree ("+sig+"); signature already demonstrated on a type-checked file in this run"
+			case tried[sig] >= demos+3:
+				r.V, r.Sig, r.Detail = "skip", "skip:not-judged", "parsers disagree ("+sig+"); domain check budget for this signature used up"
+			case hlib.Tier() != "thorough" && !stdOnlyPackage(files[i]):
+				r.V, r.Sig, r.Detail = "skip", "skip:not-judged", "parsers disagree ("+sig+"); the domain check needs module dependencies type-checked from source (thorough tier only)"
+			default:
+				tried[sig]++
+				if terr := fileTypeChecks(files[i]); terr != nil {
+					r.V, r.Sig = "skip", "skip:go/types"
+					r.Detail = fmt.Sprintf("parsers disagree (%s) but the package is outside the domain: %v", sig, terr)
+				} else {
+					shown[sig]++
+				}
+			}
+			if r.V == "skip" {
+				r.NT = nil
+			}
+		}
+	}
+	for i, r := range results {
 		hlib.Emit(r)
+		for _, m := range extras[i] {
+			hlib.Emit(hlib.Result{Idx: i, V: "viol", Sig: m[0], Detail: files[i] + ": " + m[1], Input: r.Input, NT: r.NT})
+		}
 	}
 }
